@@ -203,7 +203,11 @@ func CheckHelperPair(r int32, ann map[string]string) (check, disc, detail string
 	}
 	po := helper.GetPodOrdinals(r, obj)
 	po2 := helper.GetPodOrdinalsFromReplicasAndDeleteSlots(r, gs)
-	for name, got := range map[string]map[int32]struct{}{"GetPodOrdinals": toMap(po.List()), "GetPodOrdinalsFromReplicasAndDeleteSlots": toMap(po2.List())} {
+	for _, pr := range []struct {
+		name string
+		got  map[int32]struct{}
+	}{{"GetPodOrdinals", toMap(po.List())}, {"GetPodOrdinalsFromReplicasAndDeleteSlots", toMap(po2.List())}} {
+		name, got := pr.name, pr.got
 		if len(got) != len(Dset) {
 			return fail(name, keysOfStruct(got), D)
 		}
